@@ -56,9 +56,17 @@ class Scheduler:
         # real locks owned by the system under test (module-level threading.Lock objects of jaxtyping): only one simulated
         # thread runs at a time, so a lock that is held is held by the running thread; it is not pre-empted inside such a
         # critical section (the next thread could only block on it, and a parked owner would wedge the simulation)
-        lock_t = type(threading.Lock())
+        lock_t = (type(threading.Lock()), type(threading.RLock()))
         self.sut_locks = [v for name, mod in sorted(sys.modules.items()) if name.split(".")[0] == "jaxtyping" and mod is not None
                           for v in vars(mod).values() if isinstance(v, lock_t)]
+        for name, mod in sorted(sys.modules.items()):  # ... and locks kept as attributes of module-level objects of the library
+            if name.split(".")[0] == "jaxtyping" and mod is not None:
+                for v in list(vars(mod).values()):
+                    if (getattr(type(v), "__module__", "") or "").startswith("jaxtyping") and hasattr(v, "__dict__") and not isinstance(v, type):
+                        try:
+                            self.sut_locks.extend(a for a in vars(v).values() if isinstance(a, lock_t))
+                        except TypeError:
+                            pass
         self.skipped_in_critical_section = 0
 
     # -- running ------------------------------------------------------------------------------
@@ -167,7 +175,7 @@ class Scheduler:
                 self.lines_seen.add(key)
                 if frame is not None and self._touches_shared(frame, loc[1]):
                     self.global_lines.add(key)
-        if self.sut_locks and any(lk.locked() for lk in self.sut_locks):
+        if self.sut_locks and any((lk.locked() if hasattr(lk, "locked") else lk._is_owned()) for lk in self.sut_locks):
             self.skipped_in_critical_section += 1
             return
         tgt = self.policy.decide(self, i, loc)
